@@ -63,6 +63,26 @@ def run(prog, rep, tier, repo):
     tgt = ('arg', 3, f.names.get(3))
     mode = ('arg', 4, f.names.get(4))
     bounds = counter_bounds(f)
+    # a bracket index computed by partition_point (directly or in a straight-line helper) over a leading part of x lies in 0..=len(part)
+    pp_sites = []
+    for c_ in f.calls():
+        if not c_.path:
+            continue
+        ct = ('call', c_.path, tuple(c_.args), None)
+        it = ct if short(c_.path) == 'partition_point' else (prog.inline(ct) if c_.path in pdb.bodies else None)
+        if it is None or tag(it) != 'call' or short(it[1]) != 'partition_point' or len(it[2]) != 2:
+            continue
+        vw = _view_of(it[2][0], x)
+        if vw is None or vw[0] != 0:
+            continue
+        # the term under which conditions mention the index: the call itself, or the local it is stored into
+        holders = [st.target for st in f.stores() if st.value == ct and tag(st.target) == 'local']
+        for h_ in [ct] + holders:
+            if h_ not in bounds:
+                bounds[h_] = ({}, vw[1])
+        pp_sites.append((ct, it, vw, holders))
+        if c_.path in pdb.bodies:
+            rep.touch(c_.path)
     for loc, (lo, hi) in bounds.items():
         from ..poly import pshow
         rep.info('counter', 'counter:%s' % show(loc), '%s in [%s, %s]' % (show(loc), pshow(lo, show), pshow(hi, show)))
@@ -402,18 +422,44 @@ def run(prog, rep, tier, repo):
             c = classify(cn, (not v), lambda t: tag(t) == 'index' and t[1] == x and t[2] == j, lambda t: _is_tgt_elem(t, tgt))
             if c is not None:
                 verdicts.append(('scan', c, show(cn)[:50], v))
-    # (B) partition_point
-    for c in f.calls():
-        if c.path and short(c.path) == 'partition_point' and tag(c.args[1]) == 'agg' and c.args[1][1] == 'closure':
-            g = prog.func(c.args[1][2])
-            caps = c.args[1][3]
+    # (B) partition_point (in this body or in a straight-line helper it calls)
+    pp_calls = [(('call', c.path, tuple(c.args), None), None) for c in f.calls() if c.path and short(c.path) == 'partition_point']
+    pp_calls += [(it_, vw_) for ct_, it_, vw_, _ in pp_sites if it_ != ct_]
+    for it_, vw_ in pp_calls:
+        cl_ = it_[2][1]
+        if tag(cl_) == 'agg' and cl_[1] == 'closure':
+            g = prog.func(cl_[2])
+            caps = cl_[3]
             rv = g.return_values()
             xj = ('arg', 2, g.names.get(2))
             if len(rv) == 1:
                 def tgt_is(t, caps=caps):
+                    if tag(t) == 'upvar' and t[1] < len(caps):
+                        return _is_tgt_elem(caps[t[1]], tgt)          # the target element itself is captured (helper called with tgt[i])
                     return tag(t) == 'index' and tag(t[1]) == 'upvar' and t[1][1] < len(caps) and caps[t[1][1]] == tgt
                 cl = classify(rv[0], True, lambda t: t == xj or (tag(t) == 'deref' and t[1] == xj), tgt_is)
                 verdicts.append(('partition_point', cl or 'other', show(rv[0])[:50], True))
+    # the count must leave the last knot out (scan over 0..n-1, partition_point over x[..n-1]): counted over the whole table, a target
+    # equal to x[n-1] gives idx == n, and a test of the index against n then classifies the last knot itself as beyond the table
+    for ct_, it_, vw_, holders_ in pp_sites:
+        if not peq(vw_[1], {(('len', x),): 1}):
+            continue
+        kind_ = [vd[1] for vd in verdicts if vd[0] == 'partition_point']
+        if kind_ != ['le']:
+            continue
+        nx = ('len', x)
+        hits = []
+        for s_, d_, cn, v in f.edge_conditions():
+            if tag(cn) == 'bin' and cn[1] in ('Eq', 'Ge', 'Ne', 'Lt') and ((cn[2] in [ct_] + holders_ and cn[3] == nx) or (cn[3] in [ct_] + holders_ and cn[2] == nx)):
+                hits.append(show(cn)[:70])
+        k2 = 'last-knot:%s' % short(K)
+        if hits:
+            rep.viol('last-knot', k2, 'the bracket index counts the knots <= target over the whole table, so a target equal to the last abscissa x[n-1] gives '
+                     'index n; the test `%s` then treats the last knot itself as beyond the table (Panic mode panics, Fill returns the right fill value) '
+                     'although the knot is in range' % hits[0], site_of(f.body))
+        else:
+            rep.undecided('last-knot', k2, 'bracket index counted over the whole table; how index n (target >= x[n-1]) is told from "above" is not read',
+                          site_of(f.body), proof=False)
     # (C) (0..n-1).position(|j| x[j] > t).unwrap_or(n-1): the first knot above the target, i.e. the count of leading knots <= target
     for c in f.calls():
         if c.path and short(c.path) == 'position' and len(c.args) == 2 and tag(c.args[1]) == 'agg' and c.args[1][1] == 'closure':
